@@ -6,6 +6,7 @@ rejections whose clause carries its own prefix)."""
 from __future__ import annotations
 
 import json
+import os
 import random
 import shutil
 import urllib.request
@@ -16,25 +17,31 @@ import core
 HEAD = {".py": ("# ", ""), ".c": ("// ", ""), ".md": ("<!-- ", " -->")}
 
 
-def _initial(path: str, st: dict) -> str:
-    pre, post = HEAD[Path(path).suffix]
+def _initial(path: str, st: dict, sibling: bool = False) -> tuple:
+    """(content of the file, content of FILE.license or None): the declarations live in the header or in the sibling."""
+    pre, post = ("", "") if sibling else HEAD[Path(path).suffix]
     lines = []
     if st["cop"]:
         lines.append(f"{pre}SPDX-FileCopyrightText: 2019 Original Author{post}")
     for x in st["lic"]:
         lines.append(f"{pre}SPDX-License-Identifier: {x}{post}")
     body = {".py": "x = 1\n", ".c": "int x;\n", ".md": "# title\n"}[Path(path).suffix]
-    return ("\n".join(lines) + "\n\n" if lines else "") + body
+    if sibling:
+        return body, "\n".join(lines) + "\n"
+    return ("\n".join(lines) + "\n\n" if lines else "") + body, None
 
 
 def observe(root: Path) -> dict:
     r = core.run_reuse(["--root", str(root), "--no-multiprocessing", "lint", "--json"])
     if r["exc"] or r["exit"] not in (0, 1):
-        return {"info": {}, "present": [], "glob": "none", "missing": [], "unused": [], "nocop": [], "nolic": [], "failed": (r["exc"] or r["err"])[-200:]}
+        return {"info": {}, "own": {}, "sib": [], "present": [], "glob": "none", "missing": [], "unused": [], "nocop": [], "nolic": [], "failed": (r["exc"] or r["err"])[-200:]}
     rep = json.loads(r["out"])
-    info = {}
+    info, own = {}, {}
+    mine = ("file-header", "dot-license")      # what the file declares itself, as opposed to dep5 / REUSE.toml
     for f in rep["files"]:
         info[f["path"]] = {"cop": bool(f["copyrights"]), "lic": sorted({e["value"] for e in f["spdx_expressions"]})}
+        own[f["path"]] = {"cop": any(c["source_type"] in mine for c in f["copyrights"]),
+                          "lic": sorted({e["value"] for e in f["spdx_expressions"] if e["source_type"] in mine})}
     nc = rep["non_compliant"]
     lic_dir = root / "LICENSES"
     present = sorted(p.name[:-4] for p in lic_dir.glob("*.txt")) if lic_dir.is_dir() else []
@@ -45,7 +52,8 @@ def observe(root: Path) -> dict:
             return x
     has_dep5, has_toml = (root / ".reuse" / "dep5").is_file(), (root / "REUSE.toml").is_file()
     glob = "both" if has_dep5 and has_toml else "dep5" if has_dep5 else "toml" if has_toml else "none"
-    return {"info": info, "present": present, "glob": glob, "missing": sorted(nc["missing_licenses"]), "unused": sorted(nc["unused_licenses"]),
+    sib = sorted(f for f in info if (root / (f + ".license")).is_file())
+    return {"info": info, "own": own, "sib": sib, "present": present, "glob": glob, "missing": sorted(nc["missing_licenses"]), "unused": sorted(nc["unused_licenses"]),
             "nocop": sorted(rel(x) for x in nc["missing_copyright_info"]), "nolic": sorted(rel(x) for x in nc["missing_licensing_info"]),
             "other": sorted(k for k in ("bad_licenses", "deprecated_licenses", "licenses_without_extension", "read_errors") if nc[k])}
 
@@ -57,6 +65,8 @@ def command_line(root: Path, c: dict, rnd=None) -> list:
         c = dict(c, lic=rnd.sample(c["lic"], len(c["lic"])), files=rnd.sample(c["files"], len(c["files"])))
     if k == "lint":
         return [*base, "--no-multiprocessing", "lint"]
+    if k == "lint-file":
+        return [*base, "--no-multiprocessing", "lint-file", *[str(root / f) for f in c["files"]]]
     if k == "spdx":
         return [*base, "--no-multiprocessing", "spdx"]
     if k == "download":
@@ -71,6 +81,10 @@ def command_line(root: Path, c: dict, rnd=None) -> list:
             o += ["--copyright", "New Holder", "--year", "2024"]
         for x in c["lic"]:
             o += ["--license", x]
+        if c.get("dot"):
+            o.append("--force-dot-license")
+        if c.get("skip"):
+            o.append("--skip-existing")
         return [*base, "annotate", *o, *[str(root / f) for f in c["files"]]]
     raise ValueError(k)
 
@@ -85,7 +99,10 @@ def run_case(case: dict) -> list:
         for f, st in case["info"].items():
             p = root / f
             p.parent.mkdir(parents=True, exist_ok=True)
-            p.write_text(_initial(f, st))
+            text, dot = _initial(f, st, f in case.get("sib", []))
+            p.write_text(text)
+            if dot is not None:
+                Path(str(p) + ".license").write_text(dot)
         if case.get("glob") == "dep5":
             (root / ".reuse").mkdir(parents=True, exist_ok=True)
             (root / ".reuse" / "dep5").write_text(
@@ -147,7 +164,7 @@ def behaviours(ctx: core.Ctx, n: int, depth: int = 4) -> list:
                         "behaviours": len(uniq), "wall_s": round(r["wall"], 2)})
     if not uniq:
         raise core.MachineryError("TLC produced no Workflow behaviours:\n" + r["out"][-1500:])
-    return list(uniq.values())
+    return [uniq[k] for k in sorted(uniq)][:: max(1, len(uniq) // n)][:n]       # (TLC may print more than num behaviours)
 
 
 def stage(ctx: core.Ctx, prefixes: tuple, tid0: int = 500000) -> dict:
@@ -156,15 +173,17 @@ def stage(ctx: core.Ctx, prefixes: tuple, tid0: int = 500000) -> dict:
     mc = ctx.mc("Workflow", "MC_Workflow.cfg")
     viol = [{"clause": f"model:{v}", "kf": "", "detail": mc["out"][-2000:]} for v in mc["violated"]]
     if not q:
-        for cfg in ("MC_Workflow_big.cfg",):
+        for cfg in (("MC_Workflow_big.cfg",) if "C01." in prefixes else ()):      # (the largest instance once, in C01's check)
             mcb = ctx.mc("Workflow", cfg)
             viol += [{"clause": f"model:{v}", "kf": "", "detail": mcb["out"][-2000:]} for v in mcb["violated"]]
         mc2 = ctx.mc("Workflow", "MC_Workflow_deep.cfg")
         viol += [{"clause": f"model:{v}", "kf": "", "detail": mc2["out"][-2000:]} for v in mc2["violated"]]
     bs = behaviours(ctx, 150 if q else 2000, 5)
-    cases = [{"tid": tid0 + i, "info": b["info"], "present": b["present"], "glob": b["glob"], "hist": b["hist"],
-              "label": json.dumps({"workflow": [[h["cmd"]["kind"], h["cmd"]["files"], h["cmd"]["cop"], h["cmd"]["lic"]] for h in b["hist"]],
-                                   "start": [b["info"], b["present"], b["glob"]]})} for i, b in enumerate(bs)]
+    def opts(c):
+        return [k for k in ("dot", "skip") if c.get(k)]
+    cases = [{"tid": tid0 + i, "info": b["info"], "present": b["present"], "glob": b["glob"], "sib": b.get("sib", []), "hist": b["hist"],
+              "label": json.dumps({"workflow": [[h["cmd"]["kind"], h["cmd"]["files"], h["cmd"]["cop"], h["cmd"]["lic"], *opts(h["cmd"])] for h in b["hist"]],
+                                   "start": [b["info"], b["present"], b["glob"], b.get("sib", [])]})} for i, b in enumerate(bs)]
     evl = ctx.pmap(run_case, cases, chunksize=4, daemon=False)
     events = [e for es in evl for e in es]
     before = len(ctx.rejects)
@@ -175,10 +194,14 @@ def stage(ctx: core.Ctx, prefixes: tuple, tid0: int = 500000) -> dict:
             mine.append(r)
         else:
             foreign += 1
+            if os.environ.get("VERIF_SHOW_SIBLING"):
+                print("SIBLING-CLAUSE", r.get("clause"), json.dumps(r.get("detail"))[:500], flush=True)
     ctx.rejects[before:] = mine
     # the model's own prediction of the exit status is part of the behaviour TLC printed: cross-check the replay
     ctx.notes["workflow"] = {"behaviours": len(cases), "commands": len(events), "rejections_by_other_properties_clauses": foreign,
-                             "kinds": {k: sum(1 for e in events if e["cmd"]["kind"] == k) for k in ("annotate", "download", "download-all", "lint", "spdx", "convert-dep5")},
+                             "kinds": {k: sum(1 for e in events if e["cmd"]["kind"] == k) for k in ("annotate", "download", "download-all", "lint", "lint-file", "spdx", "convert-dep5")},
+                             "annotate_force_dot_license": sum(1 for e in events if e["cmd"].get("dot")), "annotate_skip_existing": sum(1 for e in events if e["cmd"].get("skip")),
+                             "lint_file_exit_1": sum(1 for e in events if e["cmd"]["kind"] == "lint-file" and e["exit"] == 1),
                              "convert_exit_0": sum(1 for e in events if e["cmd"]["kind"] == "convert-dep5" and e["exit"] == 0),
                              "lint_exit_0": sum(1 for e in events if e["cmd"]["kind"] == "lint" and e["exit"] == 0),
                              "download_exit_1": sum(1 for e in events if e["cmd"]["kind"] == "download" and e["exit"] == 1)}
